@@ -405,3 +405,19 @@ def c20(run):
             run.fail(dict(stage="profiles", op=rec["in"].get("op0"), check=c, record=rec, line=gl,
                           tags=rec["in"].get("tags") or [], panic=panic))
     run.stage("profiles", kind="trace-validation", drivers=[d for d, _ in drivers], events=len(full), rejected=len(res["rejects"]))
+
+
+@check("C15", level="other")
+def c15(run):
+    run.cov["rule"] = ("poisson events: number_arrivals for rates {1/4,1/2,1,2} x epsilon {1/10,1/20,1/100,1/1000} x interval lengths 0, "
+                       "1..40 densely and then up to mean 1000 (thorough 2000); poisson_pmf: arrival_probability for k = 0..2*mean+24 at 8 "
+                       "interval lengths (means <= 50); non-trivial = some recorded quantile > 1; distinct = canonical JSON of the input")
+    run.cov["explanation"] = ("TLA+ has no reals and TLC integers are 32-bit, so floating-point accuracy cannot be decided exactly. "
+                              "Poisson.tla encloses the Poisson weights relative to the mode by integer recurrences with outward rounding "
+                              "(scale 2*10^5) and derives an interval [QLo, QHi] that provably contains the (1-eps)-quantile; TLC accepts a "
+                              "recorded value iff it lies in that interval, is 0 at 0, is monotone along increasing interval lengths, and the "
+                              "call returned; pmf values (in units of 10^-5) must satisfy the Poisson recurrence and sum to one up to rounding. "
+                              "The interval is 1-3 values wide for eps >= 10^-3; much smaller eps cannot be resolved at this scale.")
+    run.assumptions += ["per-call watchdog 20 s (non-termination is reported as a hang)", "rational rates and epsilons as listed"]
+    trace_stage(run, "poisson", "poisson", extra=["--watchdog-ms", "20000"],
+                nontrivial=lambda e: any(x > 1 for x in e["out"].get("n", e["out"].get("u", []))))
